@@ -303,7 +303,7 @@ pub fn run(ctx: &Ctx) -> i32 {
         let Some(a) = seeds[i].fmt else { return };
         let x = &seeds[i].bytes;
         // (streams without a document, and the toml crate's private date-time key, are the subject of recorded C02 findings)
-        if x.is_empty() || read_stream(a, x).map(|d| d.is_empty()).unwrap_or(true) || x.windows(24).any(|w| w == b"$__toml_private_datetime") {
+        if x.is_empty() || read_stream(a, x).map(|d| d.is_empty()).unwrap_or(false) || run_mode(x, &Mode::Reader(Sched::All), Some(a), a).out.is_empty() || x.windows(24).any(|w| w == b"$__toml_private_datetime") {
             return;
         }
         acc.count("seed_inputs");
